@@ -9,7 +9,7 @@ from . import c08
 
 PROP = "C11"
 SOLVE_GRID = (0.05, 0.1, 0.29, 0.5, 0.9)
-EXTREME = (1e-6, 0.99, 1 - 1e-9)
+EXTREME = (1e-6, 0.99, 1 - 1e-9, 1e-12, 1 - 2e-11, 1 / 3, 0.30000000000000004)      # incl. values Python prints in scientific notation, without a short decimal form, or as an arithmetic artefact
 BASE = {"rb": 0.1, "lb": 0.1, "tb": 0.1, "lt": 0.3}
 KEYS = ["game_a", "game_b", "game_c"]
 
@@ -92,6 +92,10 @@ def solve_entry(key, g, cpu):
     return None, None, time.time() - t0
 
 
+PRIMER_TEXT = ('{"coin": {"rewards": [1, 0, 0], "players": ["Probabilistic", "Probabilistic", "Probabilistic"], '
+               '"transition_list": [[(0.5, 1), (0.5, 2)], [(1, 1)], [(1, 2)]], "final_states": [2]}}\n')
+
+
 def check_params(sc, params, solve):
     """returns (findings, known list, stats)"""
     sc.clear()
@@ -102,6 +106,11 @@ def check_params(sc, params, solve):
     if len(files) != 1:
         return [("C11/file-count", files, "one file", "parameters %r created %r" % (params, files))], [], {}
     try:
+        # the reader is used on an unrelated file first (other game names): what it returns for the generated file must not depend on that
+        if not os.path.exists("primer.py"):
+            with open("primer.py", "w") as f:
+                f.write(PRIMER_TEXT)
+        CR.read_dict_from_file("primer.py")
         d = CR.read_dict_from_file(os.path.join("inputs", files[0]))
     except Exception as ex:                                  # noqa: BLE001
         return [("C11/unreadable-file", "%s: %s" % (type(ex).__name__, ex), "a dictionary", "parameters %r: the reader fails on the generated file: %r" % (params, ex))], [], {}
@@ -331,7 +340,7 @@ def dispatch(shard):
 
 RULE = ("command-line path roberta_generator.main() in a scratch directory over the listed grid: seeds x sizes x max reward x force-down x the four "
         "probabilities varied one (thorough: two) at a time over the solve grid {0.05,0.1,0.29,0.5,0.9} (file + solve) and the extreme grid "
-        "{1e-6, 0.99, 1-1e-9} and very long/wide boards (file structure only); manual path create_sg_from_board on every board of the <= 3-tile "
+        "{1e-6, 0.99, 1-1e-9, 1e-12, 1-2e-11, 1/3, 0.30000000000000004} and very long/wide boards (file structure only); manual path create_sg_from_board on every board of the <= 3-tile "
         "universe and on every arrow layout of a 2x3 and a 3x2 board (structure); non-trivial = non-square, force-down or non-default probabilities")
 ASSUME = ["termination of the batch run is only claimed on the solve grid; with a failure probability of 1e-6 the solver legitimately needs ~3e7 sweeps",
           "a batch run that does not return within the alarm on a game that has an end component among its non-absorbing states (i.e. is not a "
